@@ -69,7 +69,7 @@ func formsFor(m *MethodInfo) []ClientForm {
 	return out
 }
 
-var hostilePieces = []string{"x", "a b", "100%", "a%2Fb", "%25", "é", "日本", "a:b", "a+b", "~._-", "q?x=1&y", "#h", "a;b", "1", "..", "😀", "A", "%41"}
+var hostilePieces = []string{"x", "a b", "100%", "a%2Fb", "%25", "é", "日本", "a:b", "a+b", "~._-", "q?x=1&y", "#h", "a;b", "1", "..", "😀", "A", "%41", "1+1%3D2", "Tom%20%26+Jerry", "a%2bb", "%E2%82%AC+1"}
 
 // valueForVar makes a string value that fits the variable's sub-template.
 func valueForVar(r *rand.Rand, b *Binding, v TVar) string {
@@ -380,6 +380,16 @@ func genScenario(r *rand.Rand, so ScenOpts, marker string) *Scenario {
 		creq.FrameComp = frameCompPattern(r, len(creq.Msgs))
 		if so.Headers {
 			creq.App = genAppHeaders(r, "X-Req", r.IntN(4))
+			if chance(r, 30) {
+				// ordinary metadata whose names merely look like control headers
+				for k, n := 0, 1+r.IntN(2); k < n; k++ {
+					name := pick(r, []string{"Content-Language", "Content-Disposition", "Content-Location", "Accept", "Accept-Language", "User-Agent", "Authorization", "Cookie", "X-Grpc-Thing", "X-Connect-Thing", "Trailerx", "Tex", "Contenttype"})
+					creq.App.Add(name, pick(r, appValuePool))
+					if chance(r, 30) {
+						creq.App.Add(name, pick(r, appValuePool))
+					}
+				}
+			}
 		}
 		if so.Timeouts && chance(r, 60) {
 			creq.Timeout = genValidTimeout(r, form)
